@@ -128,6 +128,12 @@ func (vc *VC) resolveLocal(ev *Eval, name string, li *loopInfo) (EVal, bool) {
 			}
 		}
 	}
+	// a variable that lives in a heap cell (captured by a closure, or its address taken): the cell
+	if a := vc.cellOf(name, func(a *ssa.Alloc) bool { return !li.body[a.Block()] && a.Block().Dominates(li.header) }); a != nil {
+		pt := a.Type().Underlying().(*types.Pointer)
+		ad := ptrAddr(get(a)[0])
+		return ev.localCellValue(pt.Elem(), ad), true
+	}
 	var best *ssa.DebugRef
 	for _, b := range vc.fn.Blocks {
 		for _, in := range b.Instrs {
@@ -172,6 +178,13 @@ func (vc *VC) resolveLocal(ev *Eval, name string, li *loopInfo) (EVal, bool) {
 // resolveLocalAtBlock finds the SSA value a source variable denotes at the end of block blk:
 // the latest reference to a variable of that name whose value dominates blk.
 func (vc *VC) resolveLocalAtBlock(ev *Eval, name string, blk *ssa.BasicBlock) (EVal, bool) {
+	if a := vc.cellOf(name, func(a *ssa.Alloc) bool { return a.Block() == blk || a.Block().Dominates(blk) }); a != nil {
+		if _, have := vc.vals[a]; have {
+			pt := a.Type().Underlying().(*types.Pointer)
+			ad := ptrAddr(vc.val(a)[0])
+			return ev.localCellValue(pt.Elem(), ad), true
+		}
+	}
 	var best *ssa.DebugRef
 	for _, b := range vc.fn.Blocks {
 		if !(b == blk || b.Dominates(blk)) {
@@ -1569,4 +1582,34 @@ func (ev *Eval) modLoc(e Expr) ([]modLoc, error) {
 		so = append(so, l.Sort)
 	}
 	return []modLoc{{a: a, n: len(so), sorts: so}}, nil
+}
+
+// cellOf: the unique heap cell (escaping Alloc) of the local variable `name` in the function being
+// translated that satisfies ok, or nil. Variables captured by closures live in such cells.
+// localCellValue: the value a local variable that lives in a heap cell holds NOW (in the state the
+// clause is evaluated in). A local is not part of the function's entry state, so inside old(...) its
+// name still denotes its current value - only what is reached through it is read from the old heap.
+func (ev *Eval) localCellValue(t types.Type, ad Addr) EVal {
+	save := ev.inOld
+	ev.inOld = false
+	terms := ev.rv(EVal{T: t, Addr: &ad})
+	ev.inOld = save
+	return EVal{T: t, Terms: terms}
+}
+
+func (vc *VC) cellOf(name string, ok func(*ssa.Alloc) bool) *ssa.Alloc {
+	var found *ssa.Alloc
+	for _, b := range vc.fn.Blocks {
+		for _, in := range b.Instrs {
+			a, isA := in.(*ssa.Alloc)
+			if !isA || !a.Heap || a.Comment != name || !ok(a) {
+				continue
+			}
+			if found != nil {
+				return nil // shadowed / redeclared: ambiguous
+			}
+			found = a
+		}
+	}
+	return found
 }
